@@ -550,6 +550,11 @@ class PVLEncoder(object):
         if any(c in self.grammar.whitespace for c in s):
             return True
 
+        # A bare dash at the end of a line is a line continuation for
+        # ISIS and for the default loader.
+        if s.endswith("-"):
+            return True
+
         # Keywords are matched case-insensitively when read, so a string
         # that spells one in any letter case has to be quoted.
         folded = s.casefold()
